@@ -291,6 +291,16 @@ fn explore(ctx: &mut Ctx) {
         }
     }
     ctx.exhaustive_part("UTF-8 inputs over {a,é,漢,😀} x their own byte prefixes / suffixes of 1..=4 bytes (char-aligned or not) as [u8] pattern");
+    // chars whose encodings differ in exactly one byte position (first, middle or last), as haystack and as pattern
+    for (set, strs) in gen::one_byte_partner_strings(if q { 3 } else { 4 }) {
+        for h in &strs {
+            for c in &set {
+                let mut buf = [0u8; 4];
+                eval(ctx, h.as_bytes(), c.encode_utf8(&mut buf).as_bytes());
+            }
+        }
+    }
+    ctx.exhaustive_part("one-byte partners: strings of <= 3-4 chars over {c, one partner per byte position of c's encoding, 'a'} for c in {é, 个, 😀} x every member as pattern (char, str and byte kinds)");
     // lead-byte sweep: the char itself (char and str kinds), its successor, its first byte and its tail bytes as patterns
     for s in gen::lead_byte_strings() {
         let hb = s.as_bytes();
@@ -345,6 +355,20 @@ fn explore(ctx: &mut Ctx) {
         }
     }
     ctx.exhaustive_part("long patterns: every prefix (length 1..=48) of a 48-byte pattern x a single changed byte at every position (or none), as prefix, as suffix and as second repetition");
+    // inputs longer than 2^16: repeated pattern with the first foreign byte at offsets around 2^8, 2^15, 2^16
+    {
+        for pat in [&b"ab"[..], b"a", b" ", "\u{e9}".as_bytes()] {
+            for keep in [0usize, 254, 256, 32_766, 32_768, 65_534, 65_536, 65_538, 69_998] {
+                let keep = keep - keep % pat.len();
+                // `keep` bytes of repeated pattern, a core, `keep` bytes of repeated pattern
+                let mut v: Vec<u8> = pat.iter().copied().cycle().take(keep).collect();
+                v.extend_from_slice(b"#core#");
+                v.extend(pat.iter().copied().cycle().take(keep));
+                eval(ctx, &v, pat);
+            }
+        }
+        ctx.exhaustive_part("inputs of up to 140000 bytes: a pattern repeated up to offsets around 2^8, 2^15, 2^16 on both sides of a core, 4 patterns");
+    }
     let n = ctx.by_tier(150_000, 3_000_000);
     let strat = (2u8..=3).prop_flat_map(|k| {
         (
